@@ -150,7 +150,7 @@ def run(ctx):
             kw["ch"], kw["chan"] = 2, rng.below(2)
         jobs.append((c, kw))
     # every interpolated / irrational planner path x knob, two tones each: a random one and one in the last 3 % of the pass-band
-    sel_f, st_f = S.cover(rng, ["base", "ph*", "band*", "roll", "prec"], S.COVER_IRRATIONAL + S.RATIOS_ARB, per_ratio=2 if quick else 6, members=1,
+    sel_f, st_f = S.cover(rng, ["base", "ph*", "band*", "roll", "prec", "gain"], S.COVER_IRRATIONAL + S.RATIOS_ARB, per_ratio=2 if quick else 6, members=1,
                           max_period=1 << 30, rtflags=(None, None, 2, 3))
     ctx.cov["covering_pool_fits"] = st_f
     for e in sel_f:
@@ -221,10 +221,11 @@ def run(ctx):
         else:
             worst["format_diff_when_exact_expected"] = max(worst.get("format_diff_when_exact_expected", 0), t["diff"])
         ctx.hist("format_pair", "%d->%d" % (t["itype"], t["otype"]))
+        ctx.hist("format_layout", "split=%s ch=%s" % (t.get("split"), t.get("ch")))
         if t["diff"] > t["bound"]:
-            ctx.violation("C01 formats: %s itype=%d otype=%d: output differs from the float64 run of the same samples by %.3g of full scale "
-                          "(bound: the output format's own resolution %.3g)" % (t["label"], t["itype"], t["otype"], t["diff"], t["bound"]),
-                          {"config": t["cfg"], "itype": t["itype"], "otype": t["otype"], "signal_seed": t["seed"], "measured_level": t["diff"], "bound": t["bound"]})
+            ctx.violation("C01 formats: %s itype=%d otype=%d split=%s ch=%s: output differs from the float64 run of the same samples by %.3g of full scale "
+                          "(bound: the output format's own resolution %.3g)" % (t["label"], t["itype"], t["otype"], t.get("split"), t.get("ch"), t["diff"], t["bound"]),
+                          {"config": t["cfg"], "itype": t["itype"], "otype": t["otype"], "split": t.get("split"), "channels": t.get("ch"), "signal_seed": t["seed"], "measured_level": t["diff"], "bound": t["bound"]})
     ctx.count("format_differentials", n_fmt)
 
     # ---------------- planner paths hit; known finding F1 probed on members the pool produced
@@ -294,6 +295,7 @@ def job_format(args):
     """Same exactly representable samples through (itype, otype) and through float64 I/O: the outputs may differ by the
     output format's own resolution only (integer formats: rounding + TPDF dither; float32: its mantissa)."""
     c, it, ot, seed = args
+    c = {k: v for k, v in c.items() if k != "scale"}        # the format clause is about the conversions, not the gain (C12 crosses gains with datatype pairs)
     try:
         info, _ = S.run(c)
         if "error" in info or not info.get("engine", "").startswith("cr") or S.bits_of(info) < 15 or S.f1_known(info):
@@ -315,16 +317,20 @@ def job_format(args):
             xd = xi.astype(np.float64)
         else:
             xi = xd = x
-        _, ya = S.run(c, xi, itype=it, otype=ot)
+        # the typed run goes through a layout drawn from the seed: interleaved or one buffer per channel on either side, one or two
+        # channels (both carrying the same samples); the reference is the mono float64 interleaved run
+        split, ch = seed & 3, 1 + ((seed >> 2) & 1)
+        xi_ch = xi if ch == 1 else np.repeat(xi, ch)
+        _, ya = S.run(c, xi_ch, itype=it, otype=ot, split=split, ch=ch)
         _, yb = S.run(c, xd, itype=1, otype=1)
-        if len(ya) != len(yb):
-            return {"cfg": c, "label": S.cfg_label(c), "itype": it, "otype": ot, "seed": seed, "diff": float("inf"), "bound": 0.0}
+        if len(ya) != len(yb) * ch:
+            return {"cfg": c, "label": S.cfg_label(c), "itype": it, "otype": ot, "seed": seed, "diff": float("inf"), "bound": 0.0, "split": split, "ch": ch}
         ya = ya.astype(np.float64) / fs_in[ot]
-        diff = float(np.abs(ya - yb).max()) if len(ya) else 0.0
+        diff = max(float(np.abs(ya[k::ch] - yb).max()) for k in range(ch)) if len(yb) else 0.0
         # both runs feed the engine the same values up to an exact power-of-two factor, so only the output conversion differs:
         # integer rounding (0.5 LSB) + TPDF dither (31/32 LSB) for int16, 0.5 LSB for int32, the mantissa for float32
         bound = S.out_resolution(ot)
-        return {"cfg": c, "label": S.cfg_label(c), "itype": it, "otype": ot, "seed": seed, "diff": diff, "bound": bound,
+        return {"cfg": c, "label": S.cfg_label(c), "itype": it, "otype": ot, "seed": seed, "diff": diff, "bound": bound, "split": split, "ch": ch,
                 "pclass": S.plan_class(info), "gain_eff": fs_in[ot] / fs_in[it], "plan": S.plan_signature(info), "engine": info["engine"], "bits": S.bits_of(info)}
     except Exception:
         import traceback
